@@ -4,7 +4,9 @@ import importlib
 import json
 import os
 import random
+import signal
 import sys
+import threading
 import time
 import traceback
 
@@ -32,6 +34,7 @@ def main(argv=None):
         return 0 if ok else 1
     t0 = time.time()
     ctx = C_ctx(pid, a.tier, seed)
+    ctx.t0 = t0
     # A check that depends on generated files (Gen/*.v are shared and belong to ONE tree at a time)
     # keeps the build lock from regeneration until its cases are evaluated, so that a concurrent
     # check against another tree cannot swap the generated model under it. Checks over hand models
@@ -53,8 +56,45 @@ def main(argv=None):
     return C.finish(pid, a.tier, seed, ps, res, t0, checker, getattr(mod, 'TRUSTED', ()))
 
 
+def _children(pid):
+    out = []
+    for d in os.listdir('/proc'):
+        if d.isdigit():
+            try:
+                st = open('/proc/%s/stat' % d).read()
+                if int(st[st.rindex(')') + 2:].split()[1]) == pid:
+                    out.append(int(d))
+                    out.extend(_children(int(d)))
+            except (OSError, ValueError):
+                pass
+    return out
+
+
+def _watchdog(mod, pid, ctx, ps, done):
+    """A run that does not finish (an implementation that sleeps on the real clock, or loops) fails closed
+    instead of hanging: the property is no longer shown to hold."""
+    cap = float(os.environ.get('VERIF_MAX_SECONDS', '2700' if ctx.quick else '21600'))
+    if done.wait(cap):
+        return
+    res = C.Result(rule='the run did not finish within %d s' % cap, evaluations=0)
+    res.corr_errors = [('harness-timeout', 'running the implementation under the harness did not finish within %d s '
+                        '(real sleeping or non-termination in the implementation under test?)' % cap)]
+    for c in _children(os.getpid()):
+        try:
+            os.kill(c, signal.SIGKILL)
+        except OSError:
+            pass
+    try:
+        C.finish(pid, ctx.tier, ctx.seed, ps, res, ctx.t0, 'make -C coq Props/%s.vo' % pid, getattr(mod, 'TRUSTED', ()))
+    finally:
+        sys.stdout.flush()
+        os._exit(1)
+
+
 def _proof_and_run(mod, pid, ctx):
     ps = C.proof_status(pid, gens=getattr(mod, 'GENS', None))
+    done = threading.Event()
+    threading.Thread(target=_watchdog, args=(mod, pid, ctx, ps, done), daemon=True).start()
     try:
         res = mod.run(ctx)
     except Exception:
@@ -65,6 +105,8 @@ def _proof_and_run(mod, pid, ctx):
         print(tb)
         res = C.Result(rule='harness crashed before completing', evaluations=0)
         res.corr_errors = [('harness-crash', tb[-3000:])]
+    finally:
+        done.set()
     return ps, res
 
 
@@ -73,6 +115,7 @@ class C_ctx:
         self.pid, self.tier, self.seed = pid, tier, seed
         self.rng = random.Random(seed)
         self.quick = tier == 'quick'
+        self.t0 = time.time()
 
 
 if __name__ == '__main__':
